@@ -67,6 +67,8 @@ func termName(t interface{}) string {
 		return "len(" + x.v.Name() + ")"
 	case fvKey:
 		return "fv(" + x.fv.Name() + ")"
+	case fvLen:
+		return "len(captured " + x.fv.Name() + ")"
 	case cellPre:
 		return "cellpre@" + x.call.Name()
 	case inlKey:
